@@ -523,6 +523,12 @@ def real_cases(ctx):
     # third corpus batch: zero step at the bracket end (third recorded finding)
     batches.append(dict(pair=["st4", "st4"], nf=CORPUS3["nf"], fmax=CORPUS3["fmax"], nd=CORPUS3["nd"], diriter=False,
                         corpus=True, dedt=CORPUS3["dedt"], seas=[CORPUS3["sea"]]))
+    # fourth corpus batch: direction iteration where the stress evaluation fails at the solved wind (repaired in /repo
+    # ee34979: used to escape the jitted parallel loop as SystemError; must be NaN)
+    batches.append(dict(pair=["st4", "st6"], nf=36, fmax=1.0, nd=36, diriter=True, corpus=True,
+                        dedt={"c1": 2.4781700125189064e-05, "c2": 8.274664577732858e-05, "c3": -1.118623712781574e-06},
+                        seas=[{"fp": 0.0848, "hs": 4.06325507658607, "dir": 359.0, "width": 20.0, "depth": INF,
+                               "gamma": 3.3, "stream": "marginal", "ratio": 0.8396272926992383}]))
     for b in range(nb):
         n = (b % 8) + 1 if b < 8 else rng.randint(1, 8)
         seas = []
